@@ -49,100 +49,68 @@ class User:
         return self.id
 
 
-class Client(ClientMixin):
+from authlib.integrations.sqla_oauth2 import OAuth2ClientMixin, OAuth2TokenMixin, OAuth2AuthorizationCodeMixin
+from authlib.integrations.sqla_oauth2 import create_revocation_endpoint, create_bearer_token_validator, create_query_token_func
+
+
+class Client(OAuth2ClientMixin):
+    """the repo's own reference client (sqla_oauth2.OAuth2ClientMixin) without a database"""
     def __init__(self, cid, secret="", uris=(), scope="", grant_types=(), response_types=(), method="client_secret_basic",
                  extra=None):
         self.client_id = cid
         self.client_secret = secret
-        self.redirect_uris = list(uris)
-        self.scope = scope
-        self.grant_types = list(grant_types)
-        self.response_types = list(response_types)
-        self.token_endpoint_auth_method = method
+        self.client_id_issued_at = 0
+        self.client_secret_expires_at = 0
+        self.set_client_metadata({"redirect_uris": list(uris), "scope": scope, "grant_types": list(grant_types),
+                                  "response_types": list(response_types), "token_endpoint_auth_method": method})
         self.extra = extra or {}
 
-    # -- sqla_oauth2.OAuth2ClientMixin semantics
-    def get_client_id(self):
-        return self.client_id
 
-    def get_default_redirect_uri(self):
-        if self.redirect_uris:
-            return self.redirect_uris[0]
-
-    def get_allowed_scope(self, scope):
-        if not scope:
-            return ""
-        allowed = set(self.scope.split())
-        scopes = scope_to_list(scope)
-        return list_to_scope([s for s in scopes if s in allowed])
-
-    def check_redirect_uri(self, redirect_uri):
-        return redirect_uri in self.redirect_uris
-
-    def check_client_secret(self, client_secret):
-        import secrets
-        return secrets.compare_digest(self.client_secret.encode(), client_secret.encode())
-
-    def check_endpoint_auth_method(self, method, endpoint):
-        if endpoint == "token":
-            return self.token_endpoint_auth_method == method
-        return True
-
-    def check_response_type(self, response_type):
-        return response_type in self.response_types
-
-    def check_grant_type(self, grant_type):
-        return grant_type in self.grant_types
-
-
-class AuthCode(AuthorizationCodeMixin):
+class AuthCode(OAuth2AuthorizationCodeMixin):
     def __init__(self, **kw):
         self.__dict__.update(kw)
-
-    def get_redirect_uri(self):
-        return self.redirect_uri
-
-    def get_scope(self):
-        return self.scope
-
-    def get_nonce(self):
-        return self.nonce
-
-    def get_auth_time(self):
-        return self.auth_time
-
-    def is_expired(self):
-        return self.auth_time + 300 < CLOCK()
+        self.code_challenge = kw.get("code_challenge")
+        self.code_challenge_method = kw.get("code_challenge_method")
 
 
-class Token(TokenMixin):
+class Token(OAuth2TokenMixin):
     def __init__(self, **kw):
         self.access_token_revoked_at = 0
         self.refresh_token_revoked_at = 0
         self.__dict__.update(kw)
-
-    def check_client(self, client):
-        return self.client_id == client.get_client_id()
-
-    def get_scope(self):
-        return self.scope
-
-    def get_expires_in(self):
-        return self.expires_in
-
-    def is_revoked(self):
-        return bool(self.access_token_revoked_at or self.refresh_token_revoked_at)
-
-    def is_expired(self):
-        if not self.expires_in:
-            return False
-        return self.issued_at + self.expires_in < CLOCK()
 
     def get_user(self):
         return User(self.user_id) if self.user_id is not None else None
 
     def get_client(self):
         return self._store.clients.get(self.client_id)
+
+
+class FakeQuery:
+    def __init__(self, items):
+        self.items = items
+
+    def filter_by(self, **kw):
+        return FakeQuery([i for i in self.items if all(getattr(i, k, None) == v for k, v in kw.items())])
+
+    def first(self):
+        return self.items[0] if self.items else None
+
+
+class FakeSession:
+    """just enough of a SQLAlchemy session for sqla_oauth2.functions"""
+    def __init__(self, store):
+        self.store = store
+
+    def query(self, model):
+        self.store.cb("query_token")
+        return FakeQuery(list(self.store.tokens))
+
+    def add(self, obj):
+        pass
+
+    def commit(self):
+        self.store.cb("commit")
 
 
 class DeviceCred(DeviceCredentialMixin):
@@ -422,60 +390,57 @@ class DevEndpoint(DeviceAuthorizationEndpoint):
                                      user_code=data["user_code"], expires_at=CLOCK() + data["expires_in"]))
 
 
-def query_token(store, token_string, token_type_hint):
-    """authlib.integrations.sqla_oauth2.create_query_token_func semantics"""
-    store.cb("query_token")
-    def by(field):
-        for t in store.tokens:
-            if getattr(t, field) == token_string:
-                return t
-    if token_type_hint == "access_token":
-        return by("access_token")
-    elif token_type_hint == "refresh_token":
-        return by("refresh_token")
-    return by("access_token") or by("refresh_token")
+def make_endpoints(store):
+    session = FakeSession(store)
+    _sqla_query_token = create_query_token_func(session, Token)
 
+    def _strict_query_token(token_string, token_type_hint):
+        # the example in RevocationEndpoint.query_token's docstring: look only where the hint says
+        q = session.query(Token)
+        if token_type_hint == "access_token":
+            return q.filter_by(access_token=token_string).first()
+        if token_type_hint == "refresh_token":
+            return q.filter_by(refresh_token=token_string).first()
+        return q.filter_by(access_token=token_string).first() or q.filter_by(refresh_token=token_string).first()
 
-class Revocation(RevocationEndpoint):
-    CLIENT_AUTH_METHODS = ["client_secret_basic", "client_secret_post"]
+    def _query_token(token_string, token_type_hint):
+        return (_strict_query_token if getattr(store, "strict_hint", False) else _sqla_query_token)(token_string, token_type_hint)
 
-    def query_token(self, token_string, token_type_hint):
-        return query_token(self.server.store, token_string, token_type_hint)
+    class Revocation(create_revocation_endpoint(session, Token)):
+        CLIENT_AUTH_METHODS = ["client_secret_basic", "client_secret_post"]
 
-    def revoke_token(self, token, request):
-        self.server.store.cb("revoke_token")
-        now = CLOCK()
-        hint = request.form.get("token_type_hint")
-        token.access_token_revoked_at = now
-        if hint != "access_token":
-            token.refresh_token_revoked_at = now
+        def query_token(self, token_string, token_type_hint):
+            if getattr(store, "strict_hint", False):
+                return _strict_query_token(token_string, token_type_hint)
+            return super().query_token(token_string, token_type_hint)
 
+    class Introspection(IntrospectionEndpoint):
+        CLIENT_AUTH_METHODS = ["client_secret_basic", "client_secret_post"]
+        PERMISSIVE = False
 
-class Introspection(IntrospectionEndpoint):
-    CLIENT_AUTH_METHODS = ["client_secret_basic", "client_secret_post"]
-    PERMISSIVE = False
+        def query_token(self, token_string, token_type_hint):
+            return _query_token(token_string, token_type_hint)
 
-    def query_token(self, token_string, token_type_hint):
-        return query_token(self.server.store, token_string, token_type_hint)
+        def check_permission(self, token, client, request):
+            return self.PERMISSIVE or token.client_id == client.get_client_id()
 
-    def check_permission(self, token, client, request):
-        return self.PERMISSIVE or token.client_id == client.get_client_id()
+        def introspect_token(self, token):
+            return {"active": True, "client_id": token.client_id, "scope": token.get_scope(),
+                    "sub": str(token.user_id), "exp": token.issued_at + token.expires_in, "iat": token.issued_at}
 
-    def introspect_token(self, token):
-        return {"active": True, "client_id": token.client_id, "scope": token.get_scope(),
-                "sub": str(token.user_id), "exp": token.issued_at + token.expires_in, "iat": token.issued_at}
+    class MemBearerValidator(create_bearer_token_validator(session, Token)):
+        pass
+    return Revocation, Introspection, MemBearerValidator
 
 
 class MemBearerValidator(BearerTokenValidator):
+    """kept for callers that build a validator directly on a store"""
     def __init__(self, store, **kw):
         super().__init__(**kw)
-        self.store = store
+        self._v = make_endpoints(store)[2]()
 
     def authenticate_token(self, token_string):
-        self.store.cb("authenticate_token")
-        for t in self.store.tokens:
-            if t.access_token == token_string:
-                return t
+        return self._v.authenticate_token(token_string)
 
 
 def build(store=None, scopes_supported=None, oidc=True, pkce_required=False, require_nonce=False, grants_enabled=None):
@@ -505,10 +470,11 @@ def build(store=None, scopes_supported=None, oidc=True, pkce_required=False, req
     if "device" in g:
         srv.register_grant(DevGrant)
         srv.register_endpoint(DevEndpoint)
+    Revocation, Introspection, Validator = make_endpoints(store)
     srv.register_endpoint(Revocation)
     srv.register_endpoint(Introspection)
     rp = ResourceProtector()
-    rp.register_token_validator(MemBearerValidator(store))
+    rp.register_token_validator(Validator())
     return store, srv, rp
 
 
